@@ -47,6 +47,184 @@ impl Hasher for RecHasher {
     }
 }
 
+macro_rules! fmt_table {
+    ($kind:expr, $spec:expr, $v:expr) => {
+        match ($kind, $spec) {
+        ("d", "S20.n.0.0.0.-") => format!("{:}", $v),
+        ("b", "S20.n.0.0.0.-") => format!("{:b}", $v),
+        ("o", "S20.n.0.0.0.-") => format!("{:o}", $v),
+        ("x", "S20.n.0.0.0.-") => format!("{:x}", $v),
+        ("X", "S20.n.0.0.0.-") => format!("{:X}", $v),
+        ("d", "S20.n.0.1.0.-") => format!("{:#}", $v),
+        ("b", "S20.n.0.1.0.-") => format!("{:#b}", $v),
+        ("o", "S20.n.0.1.0.-") => format!("{:#o}", $v),
+        ("x", "S20.n.0.1.0.-") => format!("{:#x}", $v),
+        ("X", "S20.n.0.1.0.-") => format!("{:#X}", $v),
+        ("d", "S20.n.1.0.0.-") => format!("{:+}", $v),
+        ("b", "S20.n.1.0.0.-") => format!("{:+b}", $v),
+        ("o", "S20.n.1.0.0.-") => format!("{:+o}", $v),
+        ("x", "S20.n.1.0.0.-") => format!("{:+x}", $v),
+        ("X", "S20.n.1.0.0.-") => format!("{:+X}", $v),
+        ("d", "S20.n.1.1.0.-") => format!("{:+#}", $v),
+        ("b", "S20.n.1.1.0.-") => format!("{:+#b}", $v),
+        ("o", "S20.n.1.1.0.-") => format!("{:+#o}", $v),
+        ("x", "S20.n.1.1.0.-") => format!("{:+#x}", $v),
+        ("X", "S20.n.1.1.0.-") => format!("{:+#X}", $v),
+        ("d", "S20.n.0.0.1.8") => format!("{:08}", $v),
+        ("b", "S20.n.0.0.1.8") => format!("{:08b}", $v),
+        ("o", "S20.n.0.0.1.8") => format!("{:08o}", $v),
+        ("x", "S20.n.0.0.1.8") => format!("{:08x}", $v),
+        ("X", "S20.n.0.0.1.8") => format!("{:08X}", $v),
+        ("d", "S20.n.0.1.1.10") => format!("{:#010}", $v),
+        ("b", "S20.n.0.1.1.10") => format!("{:#010b}", $v),
+        ("o", "S20.n.0.1.1.10") => format!("{:#010o}", $v),
+        ("x", "S20.n.0.1.1.10") => format!("{:#010x}", $v),
+        ("X", "S20.n.0.1.1.10") => format!("{:#010X}", $v),
+        ("d", "S20.n.1.1.1.12") => format!("{:+#012}", $v),
+        ("b", "S20.n.1.1.1.12") => format!("{:+#012b}", $v),
+        ("o", "S20.n.1.1.1.12") => format!("{:+#012o}", $v),
+        ("x", "S20.n.1.1.1.12") => format!("{:+#012x}", $v),
+        ("X", "S20.n.1.1.1.12") => format!("{:+#012X}", $v),
+        ("d", "S20.n.0.0.0.12") => format!("{:12}", $v),
+        ("b", "S20.n.0.0.0.12") => format!("{:12b}", $v),
+        ("o", "S20.n.0.0.0.12") => format!("{:12o}", $v),
+        ("x", "S20.n.0.0.0.12") => format!("{:12x}", $v),
+        ("X", "S20.n.0.0.0.12") => format!("{:12X}", $v),
+        ("d", "S20.l.0.0.0.12") => format!("{:<12}", $v),
+        ("b", "S20.l.0.0.0.12") => format!("{:<12b}", $v),
+        ("o", "S20.l.0.0.0.12") => format!("{:<12o}", $v),
+        ("x", "S20.l.0.0.0.12") => format!("{:<12x}", $v),
+        ("X", "S20.l.0.0.0.12") => format!("{:<12X}", $v),
+        ("d", "S20.r.0.0.0.12") => format!("{:>12}", $v),
+        ("b", "S20.r.0.0.0.12") => format!("{:>12b}", $v),
+        ("o", "S20.r.0.0.0.12") => format!("{:>12o}", $v),
+        ("x", "S20.r.0.0.0.12") => format!("{:>12x}", $v),
+        ("X", "S20.r.0.0.0.12") => format!("{:>12X}", $v),
+        ("d", "S20.c.0.0.0.12") => format!("{:^12}", $v),
+        ("b", "S20.c.0.0.0.12") => format!("{:^12b}", $v),
+        ("o", "S20.c.0.0.0.12") => format!("{:^12o}", $v),
+        ("x", "S20.c.0.0.0.12") => format!("{:^12x}", $v),
+        ("X", "S20.c.0.0.0.12") => format!("{:^12X}", $v),
+        ("d", "S2a.l.0.0.0.12") => format!("{:*<12}", $v),
+        ("b", "S2a.l.0.0.0.12") => format!("{:*<12b}", $v),
+        ("o", "S2a.l.0.0.0.12") => format!("{:*<12o}", $v),
+        ("x", "S2a.l.0.0.0.12") => format!("{:*<12x}", $v),
+        ("X", "S2a.l.0.0.0.12") => format!("{:*<12X}", $v),
+        ("d", "S2a.c.0.0.0.13") => format!("{:*^13}", $v),
+        ("b", "S2a.c.0.0.0.13") => format!("{:*^13b}", $v),
+        ("o", "S2a.c.0.0.0.13") => format!("{:*^13o}", $v),
+        ("x", "S2a.c.0.0.0.13") => format!("{:*^13x}", $v),
+        ("X", "S2a.c.0.0.0.13") => format!("{:*^13X}", $v),
+        ("d", "S5f.r.1.1.0.20") => format!("{:_>+#20}", $v),
+        ("b", "S5f.r.1.1.0.20") => format!("{:_>+#20b}", $v),
+        ("o", "S5f.r.1.1.0.20") => format!("{:_>+#20o}", $v),
+        ("x", "S5f.r.1.1.0.20") => format!("{:_>+#20x}", $v),
+        ("X", "S5f.r.1.1.0.20") => format!("{:_>+#20X}", $v),
+        ("d", "S20.n.0.0.0.1") => format!("{:1}", $v),
+        ("b", "S20.n.0.0.0.1") => format!("{:1b}", $v),
+        ("o", "S20.n.0.0.0.1") => format!("{:1o}", $v),
+        ("x", "S20.n.0.0.0.1") => format!("{:1x}", $v),
+        ("X", "S20.n.0.0.0.1") => format!("{:1X}", $v),
+        ("d", "S23.l.0.0.0.1") => format!("{:#<1}", $v),
+        ("b", "S23.l.0.0.0.1") => format!("{:#<1b}", $v),
+        ("o", "S23.l.0.0.0.1") => format!("{:#<1o}", $v),
+        ("x", "S23.l.0.0.0.1") => format!("{:#<1x}", $v),
+        ("X", "S23.l.0.0.0.1") => format!("{:#<1X}", $v),
+        ("d", "S30.l.0.0.0.9") => format!("{:0<9}", $v),
+        ("b", "S30.l.0.0.0.9") => format!("{:0<9b}", $v),
+        ("o", "S30.l.0.0.0.9") => format!("{:0<9o}", $v),
+        ("x", "S30.l.0.0.0.9") => format!("{:0<9x}", $v),
+        ("X", "S30.l.0.0.0.9") => format!("{:0<9X}", $v),
+        ("d", "S20.l.0.0.1.9") => format!("{:<09}", $v),
+        ("b", "S20.l.0.0.1.9") => format!("{:<09b}", $v),
+        ("o", "S20.l.0.0.1.9") => format!("{:<09o}", $v),
+        ("x", "S20.l.0.0.1.9") => format!("{:<09x}", $v),
+        ("X", "S20.l.0.0.1.9") => format!("{:<09X}", $v),
+        ("d", "S20.c.1.1.1.30") => format!("{:^+#030}", $v),
+        ("b", "S20.c.1.1.1.30") => format!("{:^+#030b}", $v),
+        ("o", "S20.c.1.1.1.30") => format!("{:^+#030o}", $v),
+        ("x", "S20.c.1.1.1.30") => format!("{:^+#030x}", $v),
+        ("X", "S20.c.1.1.1.30") => format!("{:^+#030X}", $v),
+        ("d", "S20.n.0.0.0.40") => format!("{:40}", $v),
+        ("b", "S20.n.0.0.0.40") => format!("{:40b}", $v),
+        ("o", "S20.n.0.0.0.40") => format!("{:40o}", $v),
+        ("x", "S20.n.0.0.0.40") => format!("{:40x}", $v),
+        ("X", "S20.n.0.0.0.40") => format!("{:40X}", $v),
+        ("d", "S20.n.0.1.0.40") => format!("{:#40}", $v),
+        ("b", "S20.n.0.1.0.40") => format!("{:#40b}", $v),
+        ("o", "S20.n.0.1.0.40") => format!("{:#40o}", $v),
+        ("x", "S20.n.0.1.0.40") => format!("{:#40x}", $v),
+        ("X", "S20.n.0.1.0.40") => format!("{:#40X}", $v),
+        ("d", "Se9.c.0.0.0.11") => format!("{:é^11}", $v),
+        ("b", "Se9.c.0.0.0.11") => format!("{:é^11b}", $v),
+        ("o", "Se9.c.0.0.0.11") => format!("{:é^11o}", $v),
+        ("x", "Se9.c.0.0.0.11") => format!("{:é^11x}", $v),
+        ("X", "Se9.c.0.0.0.11") => format!("{:é^11X}", $v),
+        ("d", "S20.c.0.1.0.7") => format!("{:^#7}", $v),
+        ("b", "S20.c.0.1.0.7") => format!("{:^#7b}", $v),
+        ("o", "S20.c.0.1.0.7") => format!("{:^#7o}", $v),
+        ("x", "S20.c.0.1.0.7") => format!("{:^#7x}", $v),
+        ("X", "S20.c.0.1.0.7") => format!("{:^#7X}", $v),
+        ("d", "S2d.r.1.0.0.3") => format!("{:->+3}", $v),
+        ("b", "S2d.r.1.0.0.3") => format!("{:->+3b}", $v),
+        ("o", "S2d.r.1.0.0.3") => format!("{:->+3o}", $v),
+        ("x", "S2d.r.1.0.0.3") => format!("{:->+3x}", $v),
+        ("X", "S2d.r.1.0.0.3") => format!("{:->+3X}", $v),
+        ("d", "S20.n.0.1.1.200") => format!("{:#0200}", $v),
+        ("b", "S20.n.0.1.1.200") => format!("{:#0200b}", $v),
+        ("o", "S20.n.0.1.1.200") => format!("{:#0200o}", $v),
+        ("x", "S20.n.0.1.1.200") => format!("{:#0200x}", $v),
+        ("X", "S20.n.0.1.1.200") => format!("{:#0200X}", $v),
+        ("d", "S20.l.0.1.0.140") => format!("{:<#140}", $v),
+        ("b", "S20.l.0.1.0.140") => format!("{:<#140b}", $v),
+        ("o", "S20.l.0.1.0.140") => format!("{:<#140o}", $v),
+        ("x", "S20.l.0.1.0.140") => format!("{:<#140x}", $v),
+        ("X", "S20.l.0.1.0.140") => format!("{:<#140X}", $v),
+            (k, s) => panic!("unknown format spec {} {}", k, s),
+        }
+    };
+}
+pub const FMT_SPECS: &[&str] = &["S20.n.0.0.0.-", "S20.n.0.1.0.-", "S20.n.1.0.0.-", "S20.n.1.1.0.-", "S20.n.0.0.1.8", "S20.n.0.1.1.10", "S20.n.1.1.1.12", "S20.n.0.0.0.12", "S20.l.0.0.0.12", "S20.r.0.0.0.12", "S20.c.0.0.0.12", "S2a.l.0.0.0.12", "S2a.c.0.0.0.13", "S5f.r.1.1.0.20", "S20.n.0.0.0.1", "S23.l.0.0.0.1", "S30.l.0.0.0.9", "S20.l.0.0.1.9", "S20.c.1.1.1.30", "S20.n.0.0.0.40", "S20.n.0.1.0.40", "Se9.c.0.0.0.11", "S20.c.0.1.0.7", "S2d.r.1.0.0.3", "S20.n.0.1.1.200", "S20.l.0.1.0.140"];
+
+// ---- single-subject operations: formatting under a format spec --------------------------------------------------
+#[inline(never)]
+fn fmtspec<T: Sub>(a: &[&str]) -> String
+where
+    for<'x> u128: TryFrom<&'x T>,
+{
+    let v = T::parse(a[0]);
+    let s = fmt_table!(a[1], a[2], v);
+    // model-free oracle: Rust's own formatting of the same value as a u128 (when it fits)
+    let agree = match u128::try_from(&v) {
+        Ok(x) => s == fmt_table!(a[1], a[2], x),
+        Err(_) => true,
+    };
+    format!("ok {} {}", chars_token(&s), tok_bool(agree))
+}
+
+/// an iterator over bits whose `size_hint` is deliberately weak: none at all, a lower bound of half the length only,
+/// or an upper bound only (what `from_fn`, `flat_map`, `filter` … report)
+#[derive(Clone, Copy)]
+enum Hint { None, Lower, Upper }
+struct Hinted { bits: Vec<bool>, pos: usize, hint: Hint }
+impl Iterator for Hinted {
+    type Item = Bit;
+    fn next(&mut self) -> Option<Bit> {
+        let b = self.bits.get(self.pos).copied()?;
+        self.pos += 1;
+        Some(bit_of(b))
+    }
+    fn size_hint(&self) -> (usize, Option<usize>) {
+        let rem = self.bits.len() - self.pos;
+        match self.hint {
+            Hint::None => (0, None),
+            Hint::Lower => (rem / 2, None),
+            Hint::Upper => (0, Some(rem)),
+        }
+    }
+}
+fn hinted(bits: Vec<bool>, hint: Hint) -> Hinted { Hinted { bits, pos: 0, hint } }
+
 // ---- constructors (by type tag) -------------------------------------------------------------------
 #[inline(never)]
 fn ctor<T: Sub + FromIterator<Bit>>(op: &str, a: &[&str]) -> String {
@@ -80,7 +258,12 @@ fn ctor<T: Sub + FromIterator<Bit>>(op: &str, a: &[&str]) -> String {
         }
         "collect" => {
             let bits = parse_bits(a[0]);
-            let v: T = bits.iter().map(|b| bit_of(*b)).collect();
+            let v: T = match a.get(1).copied().unwrap_or("x") {
+                "n" => hinted(bits, Hint::None).collect(),
+                "l" => hinted(bits, Hint::Lower).collect(),
+                "f" => hinted(bits, Hint::Upper).collect(),
+                _ => bits.iter().map(|b| bit_of(*b)).collect(),
+            };
             ok1(v.dump())
         }
         _ => panic!("ctor op {op}"),
@@ -130,7 +313,18 @@ where
         }
         "extend" => {
             let bits = parse_bits(a[1]);
-            v.extend(bits.iter().map(|b| bit_of(*b)));
+            let r = std::panic::catch_unwind(std::panic::AssertUnwindSafe(|| match a.get(2).copied().unwrap_or("x") {
+                "n" => v.extend(hinted(bits, Hint::None)),
+                "l" => v.extend(hinted(bits, Hint::Lower)),
+                "f" => v.extend(hinted(bits, Hint::Upper)),
+                _ => v.extend(bits.iter().map(|b| bit_of(*b))),
+            }));
+            if r.is_err() {
+                if v.len() > v.capacity() {
+                    return format!("ok {} B:0", v.dump());
+                }
+                return "panic".into();
+            }
             ok1(v.dump())
         }
         "copy_range" => {
@@ -473,6 +667,7 @@ fn exec(t: &[&str]) -> String {
     let a = &t[2..];
     match op {
         "bitconv" => bitconv(a),
+        "fmtspec" => for_types!(d1!(ty_tag(a[0]), fmtspec, (a))),
         "add" | "sub" | "mul" | "div" | "rem" | "and" | "or" | "xor" | "shl" | "shr" | "not" => ops_exec::exec(t),
         "zeros" | "ones" | "repeat" | "with_capacity" | "from_binary" | "from_hex" | "from_bytes" | "read" | "collect" => {
             for_types!(d1!(a[0], ctor, (op, &a[1..])))
